@@ -317,6 +317,12 @@ _populate_reporter_extractors()
 
 # Tokenizers
 
+# Non-ASCII characters that re.IGNORECASE accepts for an ASCII letter although
+# str.lower() does not map them to it (dotted/dotless i, long s)
+CASE_INSENSITIVE_EXTRAS = str.maketrans(
+    {"\u0130": "i", "\u0131": "i", "\u017f": "s"}
+)
+
 
 @dataclass
 class Tokenizer:
@@ -444,7 +450,9 @@ class AhocorasickTokenizer(Tokenizer):
         unique_extractors = set(self.unfiltered_extractors)
         for _, extractors in self.case_sensitive_filter.iter(text):
             unique_extractors.update(extractors)
-        for _, extractors in self.case_insensitive_filter.iter(text.lower()):
+        for _, extractors in self.case_insensitive_filter.iter(
+            text.translate(CASE_INSENSITIVE_EXTRAS).lower()
+        ):
             unique_extractors.update(extractors)
         # Set iteration order depends on the process's hash seed; tokens that
         # tie on (start, end) are kept in extractor order, so make it stable
